@@ -11,6 +11,7 @@
 import PjVerif.Lemmas.SchedC08
 import PjVerif.Lemmas.SchedC08Removal
 import PjVerif.Props.Witness
+import PjVerif.Lemmas.ScheduleSrc
 namespace Pj
 
 /-- with balancing on, every day from a leaf's release day up to (excluding) its last work day is fully booked on
@@ -87,5 +88,29 @@ theorem C08_encode_full_fails :
   cases hr : forwardCalc Witness.kfS6C08Env Witness.kfS6C08F0 Witness.kfS6C08Res with
   | ok o => rw [hr] at h; exact ⟨o, rfl, by simpa using h⟩
   | error e => rw [hr] at h; cases h
+
+/-! ### the tie of the inner loops to the current source, by translation
+
+`tools/extract_schedule.py` translates, on every run, `_ResourceUsage.reserved / reserve / __get_key` and the methods
+`__get_resource_nearest_available_date` / `__shift_by_resource_usage_and_calendar` of both schedulers (schedule.py) into
+PyLite terms (Extracted/ScheduleSrc.lean); calls that leave a method run the translated source of the callee (the ledger
+methods, resource.py, calendar.py).  The theorems say that running the translated source on a ledger is the model's
+function - with the model's `used` being what `reserved` returns on that ledger for the scheduler's balance setting - and
+that the ledger afterwards is the old one plus the model's rows.  A semantic edit of those methods breaks these proofs. -/
+
+/-- forward `__get_resource_nearest_available_date` as translated = the model's `nearestFwd`; the ledger is not touched -/
+theorem C08_source_nearest_forward (cal : Cal) (b : Bool) (rows : List Row) (r : Option Nat) (t : Uid) (start : Time) :
+    SchedSrc.interpNearestFwd cal b (SchedSrc.resRef r) t (rows.map SchedSrc.encRow) start =
+      (nearestFwd cal (SchedSrc.usedOf rows r t b) start).map (fun e => (e, rows.map SchedSrc.encRow)) :=
+  SchedSrc.interpNearestFwd_eq cal b rows r t start
+
+/-- forward `__shift_by_resource_usage_and_calendar` as translated = the model's `shiftFwd`, and the ledger afterwards is
+    the old one followed by the model's rows -/
+theorem C08_source_shift_forward (fuel : Nat) (cal : Cal) (b : Bool) (rows : List Row) (r : Option Nat) (t : Uid)
+    (start : Time) (left : Rat) (hf : Extracted.fwdShiftMaxSteps < fuel) :
+    SchedSrc.interpShiftFwd fuel cal b (SchedSrc.resRef r) t (rows.map SchedSrc.encRow) start left =
+      (shiftFwd cal (SchedSrc.usedOf rows r t b) start left).map
+        (fun p => (p.1, (rows ++ p.2.map (mkRow r t)).map SchedSrc.encRow)) :=
+  SchedSrc.interpShiftFwd_eq fuel cal b rows r t start left hf
 
 end Pj
